@@ -233,8 +233,11 @@ func checkLogsMergedNotReplaced(c *Ctx, rule string) {
 						continue
 					}
 				case *ssa.Slice:
-					v = stripConv(x.X)
-					continue
+					// x[:] keeps everything; x[:0], x[:k], x[k:] drop logs that are already attached
+					if x.Low == nil && x.High == nil {
+						v = stripConv(x.X)
+						continue
+					}
 				}
 				break
 			}
